@@ -81,7 +81,15 @@ impl Scenario {
             0 => vec![ok(1 + w), e1, e2],
             1 => vec![e1, ok(2 + w), fd2],
             2 => vec![fd, e2, ok(4)],
-            _ => vec![e2, ok(1), ok(2 + w), e1],
+            3 => vec![e2, ok(1), ok(2 + w), e1],
+            // script 4: only worker 0 ever produces frame errors; the others decode correctly for ever
+            _ => {
+                if w == 0 {
+                    vec![e2, fd2]
+                } else {
+                    vec![ok(1 + w)]
+                }
+            }
         };
         let mut fr = seq[(f + w + round) % seq.len()];
         if self.inject == Inject::DecoderPanic && w == 0 && f == 1 {
@@ -546,6 +554,7 @@ fn scenarios(thorough: bool) -> Vec<(Scenario, Vec<usize>)> {
             for w in 0..workers {
                 let mut cnt = 0u64;
                 let mut f = 0usize;
+                let mut supplies = true;
                 while cnt < errors {
                     let fr = s.frame(round, w, f);
                     if (bch > 0 && fr.flips as u64 > bch) || (bch == 0 && fr.flips > 0) {
@@ -553,10 +562,16 @@ fn scenarios(thorough: bool) -> Vec<(Scenario, Vec<usize>)> {
                     }
                     f += 1;
                     if f > 64 {
-                        machinery("C13: a frame script cannot supply the required frame errors");
+                        // this worker never errs (script 4): it cannot supply the errors on its own
+                        supplies = false;
+                        break;
                     }
                 }
-                need = need.max(f);
+                if supplies {
+                    need = need.max(f);
+                } else if w == 0 {
+                    machinery("C13: a frame script cannot supply the required frame errors");
+                }
             }
         }
         let s = Scenario { budget: need + extra_budget, ..s };
@@ -600,6 +615,15 @@ fn scenarios(thorough: bool) -> Vec<(Scenario, Vec<usize>)> {
         }
     }
     add(3, 1, 0, true, 2, 0, Inject::None, vec![1], 0);
+    // only worker 0 ever errs: the other workers must still notice the termination request
+    for w in 2..=3 {
+        for &bch in &[0u64, 1] {
+            add(w, 2, bch, true, 1, 4, Inject::None, vec![if t { 5 - w } else { 4 - w }], 0);
+            if w == 2 || t {
+                add(w, 1, bch, false, 2, 4, Inject::None, vec![if w == 3 { 1 } else { 2 }], 0);
+            }
+        }
+    }
     if t {
         add(2, 2, 0, true, 1, 0, Inject::None, vec![3], 1);
     }
@@ -842,7 +866,7 @@ pub fn run(run: &Run) -> i32 {
         run,
         acc,
         Coverage {
-            rule: "stateless DFS over thread schedules of the real BerTest::run under a controlled scheduler (every channel send/recv/try_recv, spawn, join and thread exit is a scheduling point; one thread runs at a time), all schedules with at most b preemptions per scenario (b per scenario in per_scenario; includes every schedule with fewer preemptions; 'unbounded' = every schedule of the scenario, no bound: all one-worker one-point scenarios, and in the thorough tier the two-worker one-error scenarios of script 0); scenarios = worker counts 1..3 (4 at preemption bound 1-2) x required frame errors 0..2 x outer-code threshold off/1 x report interval 0/1h x 4 frame scripts x 1 or 2 Eb/N0 points, plus failure injection (stage returns Err; interleaver / 8PSK stage panics in every worker; decoder panics in worker 0). Scripted decoders yield at low priority after their frame budget (the number of frames after which any single worker has supplied the required errors), which bounds how far a worker runs ahead. Oracle per execution: termination (deadlock = no enabled thread), all threads joined at return, statistics == fold of the scripted frames in the arrival order read from the scheduler's own log up to exactly the stopping prefix (bit-exact ratios), every intermediate report == fold of its prefix, single final 'finished' report, Err (not hang / panic) for unprocessable configurations. states/transitions = decision points executed; traces_validated_against_impl = complete executions of the implementation. Non-trivial = execution with at least one real scheduling choice. Exploration is sharded over worker processes by subtrees of a deterministic breadth-first frontier.".into(),
+            rule: "stateless DFS over thread schedules of the real BerTest::run under a controlled scheduler (every channel send/recv/try_recv, spawn, join and thread exit is a scheduling point; one thread runs at a time), all schedules with at most b preemptions per scenario (b per scenario in per_scenario; includes every schedule with fewer preemptions; 'unbounded' = every schedule of the scenario, no bound: all one-worker one-point scenarios, and in the thorough tier the two-worker one-error scenarios of script 0); scenarios = worker counts 1..3 (4 at preemption bound 1-2) x required frame errors 0..2 x outer-code threshold off/1 x report interval 0/1h x 5 frame scripts (in the fifth only worker 0 ever produces frame errors) x 1 or 2 Eb/N0 points, plus failure injection (stage returns Err; interleaver / 8PSK stage panics in every worker; decoder panics in worker 0). Scripted decoders yield at low priority after their frame budget (the number of frames after which any single worker has supplied the required errors), which bounds how far a worker runs ahead. Oracle per execution: termination (deadlock = no enabled thread), all threads joined at return, statistics == fold of the scripted frames in the arrival order read from the scheduler's own log up to exactly the stopping prefix (bit-exact ratios), every intermediate report == fold of its prefix, single final 'finished' report, Err (not hang / panic) for unprocessable configurations. states/transitions = decision points executed; traces_validated_against_impl = complete executions of the implementation. Non-trivial = execution with at least one real scheduling choice. Exploration is sharded over worker processes by subtrees of a deterministic breadth-first frontier.".into(),
             exhaustive: all_complete,
             extra,
             graph: Some(graph),
